@@ -49,6 +49,21 @@ pub fn read_frag(bytes: &[u8], frag: Frag, skip: bool, hash: bool, fail_at: Opti
 	(o, r.seeks, r.calls())
 }
 
+/// `read_frag` on the first `len` bytes of `bytes`, on a watchdog thread: None = did not return in time.
+pub fn read_frag_guarded(
+	dog: &mut Watchdog,
+	deadline: Duration,
+	bytes: &std::sync::Arc<Vec<u8>>,
+	len: usize,
+	frag: Frag,
+	skip: bool,
+	hash: bool,
+	fail_at: Option<usize>,
+) -> Option<(Outcome<Game>, usize, usize)> {
+	let b = bytes.clone();
+	dog.run(deadline, move || read_frag(&b[..len], frag, skip, hash, fail_at))
+}
+
 pub fn xxh3_hex(bytes: &[u8]) -> String {
 	format!("xxh3:{:016x}", xxhash_rust::xxh3::xxh3_64(bytes))
 }
@@ -124,7 +139,16 @@ fn check_sched(db: &LayoutDb, s: &Sched, idx: usize, seed: u64, sink: &Sink) {
 		};
 		sink.count(fnv(data) ^ fnv(format!("{:?}{}{}", s.chunks, s.skip, s.hash).as_bytes()), !s.chunks.is_empty());
 		sink.sample(|| json!({"chunks": s.chunks, "skip": s.skip, "hash": s.hash, "cut": {"seg": s.cut.seg, "where": s.cut.r#where}, "model_outcome": s.outcome, "version": ver, "file_len": built.bytes.len(), "given": data.len()}));
-		let (res, seeks, _) = read_frag(data, Frag::Sched(s.chunks.clone()), s.skip, s.hash, None);
+		let shared = std::sync::Arc::new(data.to_vec());
+		let mut dog = Watchdog::new();
+		let (res, seeks, _) = match read_frag_guarded(&mut dog, Duration::from_secs(20), &shared, data.len(), Frag::Sched(s.chunks.clone()), s.skip, s.hash, None) {
+			Some(x) => x,
+			None => {
+				let v = viol("sched_read", &format!("{},segment:{},{}", cls, s.cut.seg, s.cut.r#where), "hang", format!("no return within 20 s (schedule {:?}, {} of {} bytes)", s.chunks, data.len(), built.bytes.len()));
+				sink.report(&v, &|| json!({"sched": {"chunks": s.chunks, "skip": s.skip, "hash": s.hash}, "ver": ver, "bytes_hex": crate::util::hex(data)}));
+				continue;
+			}
+		};
 		match (&res, s.outcome.as_str()) {
 			(Outcome::Ok(g), "ok") => {
 				if s.hash {
@@ -309,9 +333,12 @@ impl Watchdog {
 	}
 }
 
-fn cuts_slp(beh: &Beh, built: &Built, stride: usize, sink: &Sink) {
+fn cuts_slp(beh: &Beh, built: &Built, stride: usize, deadline: Duration, sink: &Sink, hangs: &std::sync::atomic::AtomicUsize) {
+	use std::sync::atomic::Ordering;
 	let cls = shape_class(beh);
 	let n = built.bytes.len();
+	let shared = std::sync::Arc::new(built.bytes.clone());
+	let mut dog = Watchdog::new();
 	let mut cut = 0;
 	while cut < n {
 		for skip in [false, true] {
@@ -319,12 +346,19 @@ fn cuts_slp(beh: &Beh, built: &Built, stride: usize, sink: &Sink) {
 				if hash && cut % 3 != 0 {
 					continue;
 				}
+				if hangs.load(Ordering::SeqCst) >= 3 {
+					return;
+				}
 				sink.count(fnv(&built.bytes) ^ ((cut as u64) << 2 | (skip as u64) << 1 | hash as u64), true);
-				let (res, _, _) = read_frag(&built.bytes[..cut], Frag::Whole, skip, hash, None);
-				let v = match res {
-					Outcome::Err(_) => None,
-					Outcome::Ok(_) => Some(viol("slp_cut_accepted", &format!("{},skip={}", cls, skip), "mismatch", format!("file cut at byte {} of {} was accepted", cut, n))),
-					o => Some(viol("slp_cut", &format!("{},skip={}", cls, skip), o.kind(), format!("cut at {} of {}: {}", cut, n, o.detail()))),
+				let c = format!("{},skip={},hash={}", cls, skip, hash);
+				let v = match read_frag_guarded(&mut dog, deadline, &shared, cut, Frag::Whole, skip, hash, None) {
+					None => {
+						hangs.fetch_add(1, Ordering::SeqCst);
+						Some(viol("slp_cut", &c, "hang", format!("reading the file cut at byte {} of {} did not return within {:?}", cut, n, deadline)))
+					}
+					Some((Outcome::Err(_), _, _)) => None,
+					Some((Outcome::Ok(_), _, _)) => Some(viol("slp_cut_accepted", &c, "mismatch", format!("file cut at byte {} of {} was accepted", cut, n))),
+					Some((o, _, _)) => Some(viol("slp_cut", &c, o.kind(), format!("cut at {} of {}: {}", cut, n, o.detail()))),
 				};
 				if let Some(v) = v {
 					sink.report(&v, &|| json!({"cut": cut, "skip": skip, "hash": hash, "ver": built.ver, "bytes_hex": crate::util::hex(&built.bytes[..cut])}));
@@ -474,7 +508,7 @@ pub fn cmd_cuts(a: &Args) {
 			o.plan = 1;
 			let built = gen::build_beh(&db, &beh, &o);
 			sink.sample(|| json!({"regime": beh.reg, "version": ver, "file_len": built.bytes.len(), "cuts": "every byte offset, skip on/off"}));
-			cuts_slp(&beh, &built, slp_stride, &sink);
+			cuts_slp(&beh, &built, slp_stride, deadline, &sink, &hangs);
 			let mut q = for_slpp.lock().unwrap();
 			// keep the behaviours with the most events (most Arrow content), a few of them
 			q.push((beh.clone(), built));
